@@ -1,18 +1,19 @@
 #!/bin/bash
 # try_harmless.sh [diff...] — apply behaviour-preserving rewrites of /repo (harmless/*.diff) to a scratch copy of HEAD and run
 # every registered check against it: none may print VIOLATION.  /repo itself is not touched.
-cd /verif
+V=$(cd "$(dirname "$0")/.." && pwd); R=${VP_RUN_REPO:-/repo}
+cd $V
 diffs=${@:-$(ls harmless/*.diff)}
 rc=0
 for d in $diffs; do
   work=$(mktemp -d -p /dev/shm harmless.XXXXXX)
-  git -C /repo archive HEAD | tar -x -C $work
-  ( cd $work && git init -q . && git apply /verif/$d ) || { echo "$d: does not apply"; rm -rf $work; rc=2; continue; }
+  git -C $R archive HEAD | tar -x -C $work
+  ( cd $work && git init -q . && git apply $V/$d ) || { echo "$d: does not apply"; rm -rf $work; rc=2; continue; }
   for c in $(python3 -c "import json; print(' '.join(c['property_id'] for c in json.load(open('MANIFEST.json'))['checks']))"); do
     out=$(VERIF_REPO=$work python3 tools/vcheck.py $c 2>&1); r=$?
     if [ $r -ne 0 ] || echo "$out" | grep -q '^VIOLATION'; then echo "$d $c ALARM(rc=$r)"; echo "$out" | grep '^VIOLATION' | head -3; rc=1; else echo "$d $c quiet"; fi
   done
   rm -rf $work
 done
-python3 tools/gen.py >/dev/null; git checkout evidence/ 2>/dev/null
+VERIF_REPO=$R python3 tools/gen.py >/dev/null; git checkout evidence/ 2>/dev/null
 exit $rc
